@@ -19,7 +19,7 @@ RULE = ('one run = one seeded program as in C11 extended by savepoints and '
         'gone afterwards; an observer connection must never see savepoint '
         'data; non-trivial = >= 1 rollback; distinct = op trace')
 BUDGET = {'quick': {'runs': 12000, 'wall': 300, 'chunk': 25},
-          'thorough': {'runs': 900000, 'wall': 1800, 'chunk': 200}}
+          'thorough': {'runs': 900000, 'wall': 1200, 'chunk': 200}}
 ASSUMPTIONS = [
     'the object cache is large enough that no new object saved by a '
     'savepoint is evicted (an evicted one keeps its state only in the '
